@@ -55,6 +55,8 @@ BOUNDS = {
              "return kind: <=3 points, Grid1D length<=3, Grid2D masks of 1x1, 1x2, 2x2; "
              "user functions returning a list with exactly one entry and an empty list (every decorator and container); the caller's grid "
              "is compared with its coordinates after every decorated call; "
+             "stack with to_grid / to_vector_yx as the outermost decorator (<=2 irregular points, 1x2 masks); caller's extra keyword "
+             "arguments reach the user function (irregular cases, every decorator); "
              "the stack is called with no keyword, is_transformed=True and is_transformed=False, directly and NESTED (a to_array(transform) "
              "method whose body calls a transform(relocate) method of the same object with its **kwargs); "
              "histories: two grids with different symbolic coordinates on ONE mask geometry (separate equal mask objects) called A, B, A through "
@@ -404,7 +406,11 @@ def body_irregular(inp, N, sub="base"):
         key = "%s.%s" % (dec, kind)
         log = []
         P = _profile("C17Profile", _user(uf, log, kind), [getattr(aa.grid_dec, dec)], centre=(0.0, 0.0), angle=30.0)
-        res = hx.attempt(lambda: P().fn(grid))
+        res = hx.attempt(lambda: P().fn(grid, option=7, is_transformed=True))
+        # the caller's keyword arguments reach the user function unchanged (extra POSITIONAL arguments are not used: the wrappers'
+        # `Maker(func=func, obj=obj, grid=grid, *args, **kwargs)` raises TypeError for them on the pristine code - not part of the statement)
+        A[key + ".kwargs_forwarded"] = repr(sorted(log[-1]["kwargs"].items())) if log else None
+        E[key + ".kwargs_forwarded"] = repr([("is_transformed", True), ("option", 7)])
         A[key + ".seen_type"] = log[-1]["type"] if log else None
         E[key + ".seen_type"] = _grid_cls("Grid2DIrregular", sub).__name__
         A[key + ".seen"] = log[-1]["coords"] if log else None
@@ -947,7 +953,7 @@ def _known_regions(inputs, which):
 
 # --------------------------------------------------------------------------- the decorator stack of real profiles
 
-def body_stack(inp, kind, N, rot, H=0, W=0):
+def body_stack(inp, kind, N, rot, H=0, W=0, outer_dec="to_array"):
     """to_array(transform(relocate_to_radial_minimum(f))) - the stack used by light/mass profiles"""
     import autoarray as aa
     import sys
@@ -979,17 +985,22 @@ def body_stack(inp, kind, N, rot, H=0, W=0):
             return grid.with_new_array(out)
         return out
 
-    P = _profile("C17Profile", _user(uf, log, "scalar"),
-                 [aa.grid_dec.to_array, aa.grid_dec.transform, aa.grid_dec.relocate_to_radial_minimum],
+    # the outermost structure decorator of the stack: to_array (1D values), to_grid / to_vector_yx ((y,x) pairs)
+    ukind = "scalar" if outer_dec == "to_array" else "pair"
+    odec = getattr(aa.grid_dec, outer_dec)
+    ocls = {"to_array": ("Array2D", "ArrayIrregular"), "to_grid": ("Grid2D", "Grid2DIrregular"),
+            "to_vector_yx": ("VectorYX2D", "VectorYX2DIrregular")}[outer_dec][0 if kind == "grid2d" else 1]
+    P = _profile("C17Profile", _user(uf, log, ukind),
+                 [odec, aa.grid_dec.transform, aa.grid_dec.relocate_to_radial_minimum],
                  radial_grid_from=_radial_grid_from, transformed_to_reference_frame_grid_from=transformed, centre=(cy, cx))
     # nested profile (the way light / mass profiles are written): a `to_array(transform(.))` method whose body calls a second
     # `transform(relocate(.))` method of the same object, handing its **kwargs on
-    inner = aa.grid_dec.transform(aa.grid_dec.relocate_to_radial_minimum(_user(uf, log, "scalar")))
+    inner = aa.grid_dec.transform(aa.grid_dec.relocate_to_radial_minimum(_user(uf, log, ukind)))
 
     def outer(self, grid, **kwargs):
         return self.inner(grid, **kwargs)
 
-    PN = type("C17Profile", (object,), {"inner": inner, "fn": aa.grid_dec.to_array(aa.grid_dec.transform(outer)),
+    PN = type("C17Profile", (object,), {"inner": inner, "fn": odec(aa.grid_dec.transform(outer)),
                                          "radial_grid_from": _radial_grid_from, "transformed_to_reference_frame_grid_from": transformed,
                                          "centre": (cy, cx)})
     old = rr_mod.conf
@@ -1027,14 +1038,14 @@ def body_stack(inp, kind, N, rot, H=0, W=0):
                     A[kj + ".mask"] = hx.attempt(lambda: np.array(r.mask))
                     E[kj + ".mask"] = mask
 
-            _check_container_list(A, E, tag, res, "scalar", "Array2D" if kind == "grid2d" else "ArrayIrregular", exp_ret, per_item)
+            _check_container_list(A, E, tag, res, ukind, ocls, exp_ret, per_item)
     finally:
         rr_mod.conf = old
     inp["_tol"] = TOL
     return A, E
 
 
-def case_stack(ctx, kind, N, rot=None, H=0, W=0):
+def case_stack(ctx, kind, N, rot=None, H=0, W=0, outer_dec="to_array"):
     inputs = {"ftab": []}
     if kind == "grid2d":
         mask = _sym_mask(ctx, (H, W))
@@ -1046,7 +1057,7 @@ def case_stack(ctx, kind, N, rot=None, H=0, W=0):
     r = V.real("r_min")
     ctx.assume(r.t > 0)
     inputs["rmin"] = [r]
-    kw = {"kind": kind, "N": N, "rot": rot}
+    kw = {"kind": kind, "N": N, "rot": rot, "outer_dec": outer_dec}
     if kind == "grid2d":
         kw.update(H=H, W=W)
     _run(ctx, body_stack, inputs, kw, validate_every=1)
@@ -1204,6 +1215,10 @@ def cases(tier):
     for N in range(1, (2 if quick else 3) + 1):
         out.append(("case_stack", {"kind": "irregular", "N": N, "rot": None}, NRA))
     out.append(("case_stack", {"kind": "grid2d", "N": 0, "rot": None, "H": 1 if quick else 2, "W": 2}, NRA if quick else dict(NRA, split=4)))
+    for od in ("to_grid", "to_vector_yx"):
+        out.append(("case_stack", {"kind": "irregular", "N": 1, "rot": None, "outer_dec": od}, NRA))
+        out.append(("case_stack", {"kind": "irregular", "N": 2, "rot": None, "outer_dec": od}, NRA))
+        out.append(("case_stack", {"kind": "grid2d", "N": 0, "rot": None, "H": 1, "W": 2, "outer_dec": od}, NRA))
     # subclass inputs: the library's Grid2DIrregularUniform and trivial user subclasses of the three grid types
     for N in range(1, (3 if quick else 5) + 1):
         out.append(("case_irregular", {"N": N, "sub": "lib"}))
